@@ -7,6 +7,7 @@ package main
 // rate limiting governs it afterwards.
 
 import (
+	"encoding/binary"
 	"fmt"
 	"math/rand"
 	"net"
@@ -414,5 +415,78 @@ func checkC16(r *Result, rng *rand.Rand, thorough bool) {
 		}
 	}
 	limiterFollowsUpdate(r)
+	midDrainEveryProcedure(r)
 	compareWithModel(r, "drain", cases, impl, nil)
+}
+
+// midDrainEveryProcedure: "requests arriving mid-drain get a retry-later reply" for every procedure a client can
+// send. One GETATTR is held inside the backend, an update is started (it waits for the drain), then one call of each
+// NFSv3 procedure 1..21 and MOUNT MNT arrives: each must be an accepted reply whose result carries NFS3ERR_JUKEBOX
+// (MOUNT: a non-zero mountstat3), never PROC_UNAVAIL, GARBAGE_ARGS or an ordinary result.
+func midDrainEveryProcedure(r *Result) {
+	e := newDrainEnv()
+	p := "/f0"
+	e.mu.Lock()
+	e.gates[p] = make(chan struct{})
+	e.atGate[p] = make(chan struct{}, 1)
+	at, gate := e.atGate[p], e.gates[p]
+	e.mu.Unlock()
+	held := make(chan struct{})
+	go func() {
+		s2 := &Srv{NFS: e.s.NFS, H: e.s.H, S: e.s.S, IP: "127.0.0.1", Port: 700}
+		s2.NFSCall(1, rootCred(), fh(e.handles[0]))
+		close(held)
+	}()
+	select {
+	case <-at:
+	case <-time.After(2 * time.Second):
+		r.Notes = append(r.Notes, "mid-drain scenario skipped: the held request never reached the backend")
+		close(gate)
+		e.s.Close()
+		return
+	}
+	updDone := make(chan struct{})
+	go func() {
+		e.s.NFS.UpdatePolicyOptions(absnfs.PolicyOptions{MaxFileSize: 77})
+		close(updDone)
+	}()
+	time.Sleep(30 * time.Millisecond) // let the updater reach Lock()
+	h := e.handles[1]
+	args := map[uint32][]byte{1: fh(h), 2: argSetattr(h, Sattr{}, nil), 3: argDirop(h, "x"), 4: cat(fh(h), u32(1)), 5: fh(h), 6: argRead(h, 0, 1),
+		7: argWrite(h, 0, 1, 2, []byte("x")), 8: argCreate(h, "x", 0, Sattr{}, nil), 9: argMkdir(h, "x", Sattr{}), 10: argSymlink(h, "x", Sattr{}, "t"),
+		11: cat(argDirop(h, "x"), u32(6)), 12: argDirop(h, "x"), 13: argDirop(h, "x"), 14: argRename(h, "x", h, "y"), 15: cat(fh(h), argDirop(h, "x")),
+		16: argReaddir(h, 0, zeroVerf, 4096), 17: argReaddirplus(h, 0, zeroVerf, 4096, 8192), 18: fh(h), 19: fh(h), 20: fh(h), 21: argCommit(h, 0, 0)}
+	s2 := &Srv{NFS: e.s.NFS, H: e.s.H, S: e.s.S, IP: "127.0.0.1", Port: 701}
+	for proc := uint32(1); proc <= 21; proc++ {
+		select {
+		case <-updDone:
+			r.Notes = append(r.Notes, "mid-drain scenario cut short: the update returned while a request was still held")
+			proc = 99
+			continue
+		default:
+		}
+		rep := s2.NFSCall(proc, rootCred(), args[proc])
+		r.noteCase(fmt.Sprint("mid-drain proc ", proc), true)
+		r.count("mid-drain-procedure")
+		ok := rep.Err == nil && rep.Status == 0 && rep.AcceptStatus == 0 && len(rep.Data) >= 4 && binary.BigEndian.Uint32(rep.Data) == 10008
+		if !ok {
+			st := uint32(0)
+			if len(rep.Data) >= 4 {
+				st = binary.BigEndian.Uint32(rep.Data)
+			}
+			r.violate(Violation{Class: "C16/mid-drain-not-retry-later", What: fmt.Sprintf("NFS procedure %d arriving while an update waits for the drain: err=%v reply_stat=%d accept_stat=%d status=%d, want an accepted reply carrying NFS3ERR_JUKEBOX (10008)", proc, rep.Err, rep.Status, rep.AcceptStatus, st),
+				Ops: []string{"mid-drain-every-procedure"}})
+			break
+		}
+	}
+	close(gate)
+	select {
+	case <-held:
+	case <-time.After(2 * time.Second):
+	}
+	select {
+	case <-updDone:
+	case <-time.After(3 * time.Second):
+	}
+	e.s.Close()
 }
